@@ -14,9 +14,10 @@ EXPLANATION = (
     "reachable from compute_stats is enumerated and its divisor discharged (non-zero constant, max(_, >=1), "
     "checked_div, non-emptiness of the collection whose len()/sample_size divides, or a named exception with a checked "
     "side condition). R05.4 no other panic edge (diverging call, unwrap/expect/slice indexing, unproved bounds check) in "
-    "that code. Decides the wiring and the guards, not the arithmetic.")
+    "that code. Decides the wiring and the guards, not the arithmetic."
+    ' R05.6 path summaries of the helpers: slice_middle returns the slice itself when empty, the window [len/2 - 1 ..][.. 2] when len is even and [len/2 ..][.. 1] when odd (any spelling of the sub-slicing); total_duration is the sum of duration.picos over all time_samples. R05.7 the total iteration count is formed with both factors widened to 64 bits before the product.')
 NOT_DECIDED = ["numerical exactness of the integer picosecond arithmetic and f64 rounding", "fastest <= median <= slowest as values",
-               "slice_middle's index arithmetic (covered by an existing unit test)", "arithmetic overflow checks of the dev profile",
+               "arithmetic overflow checks of the dev profile other than the iteration-count product (R05.7)",
                "NaN-freedom of f64 paths other than division by a possibly-zero divisor"]
 TRUSTED = ["slice::first/last/sort_unstable_by_key, HashMap::get/insert"]
 
